@@ -11,6 +11,8 @@ import (
 	"sort"
 	"strings"
 
+	"github.com/holiman/uint256"
+	rctypes "github.com/rigochain/rigo-go/ctrlers/types"
 	abci "github.com/tendermint/tendermint/abci/types"
 )
 
@@ -77,6 +79,47 @@ func altTxs(c *Ctx, hr *HistRun, i int) map[int64][][]byte {
 		}
 		b, _ := g2.NextBlock(h, hr.Times[h], pre, hr.Sim, hr.M.lastValidators(h), shadow)
 		out[h] = b.Txs
+		// directed conflicts that are checked but never delivered:
+		price := bigDec(pre.Params.GasPrice)
+		mk := func(k *Key, typ int32, to []byte, pl rctypes.ITrxPayload) {
+			a := pre.Accounts[k.A()]
+			if a == nil {
+				return
+			}
+			tx := mkTx(typ, k.Addr, to, a.Nonce, pre.Params.MinTrxGas+2, u256big(price), new(uint256.Int), pl, h*1_000_000+800_000+int64(len(out[h])))
+			out[h] = append(out[h], signTx(tx, k, hr.G.G.ChainID))
+		}
+		// (1) every validator with delegators withdraws its own stakes (forces the release of the delegators)
+		for _, dk := range sortedKeys(pre.Delegatees) {
+			d := pre.Delegatees[dk]
+			k := g2.Keys[dk]
+			if k == nil || d.Total == d.Self {
+				continue
+			}
+			for _, st := range d.Stakes {
+				if st.Owner == dk {
+					mk(k, rctypes.TRX_UNSTAKING, addrBytes(dk), &rctypes.TrxPayloadUnstaking{TxHash: addrBytes(st.TxHash)})
+				}
+			}
+		}
+		// (2) every voter of every open proposal votes (for a random option)
+		for _, pk := range sortedKeys(pre.Proposals) {
+			p := pre.Proposals[pk]
+			if h < p.Start || h > p.End {
+				continue
+			}
+			for _, vk := range sortedKeys(p.Voters) {
+				if k := g2.Keys[vk]; k != nil {
+					mk(k, rctypes.TRX_VOTING, zeroAddr, &rctypes.TrxPayloadVoting{TxHash: addrBytes(pk), Choice: int32(rng.Intn(len(p.Options)))})
+				}
+			}
+		}
+		// (3) everybody with a reward withdraws all of it
+		for _, rk := range sortedKeys(pre.Rewards) {
+			if k := g2.Keys[rk]; k != nil && pre.Rewards[rk].Cumulated.Sign() > 0 {
+				mk(k, rctypes.TRX_WITHDRAW, zeroAddr, &rctypes.TrxPayloadWithdraw{ReqAmt: u256big(pre.Rewards[rk].Cumulated)})
+			}
+		}
 	}
 	return out
 }
@@ -127,7 +170,7 @@ func (c *Ctx) c06Deterministic(i int, hr *HistRun, o *HistOpts, alts map[int64][
 			if rng.Intn(2) == 0 {
 				var tx []byte
 				kind := ""
-				switch rng.Intn(6) {
+				switch rng.Intn(8) {
 				case 0: // a transaction of this block (before or after its delivery)
 					if len(hr.Blocks[bi].Txs) > 0 {
 						tx, kind = hr.Blocks[bi].Txs[rng.Intn(len(hr.Blocks[bi].Txs))], "own"
@@ -136,7 +179,7 @@ func (c *Ctx) c06Deterministic(i int, hr *HistRun, o *HistOpts, alts map[int64][
 					if bi+1 < nb && len(hr.Blocks[bi+1].Txs) > 0 {
 						tx, kind = hr.Blocks[bi+1].Txs[rng.Intn(len(hr.Blocks[bi+1].Txs))], "next"
 					}
-				case 2, 3: // conflicting alternative
+				case 2, 3, 6, 7: // conflicting alternative
 					if a := alts[h]; len(a) > 0 {
 						tx, kind = a[rng.Intn(len(a))], "conflict"
 					}
